@@ -152,3 +152,19 @@ func Note(msg string)               {}
 func SymChan(ch any, capacity, count int64) {}
 func ChanLen(ch any) int64          { return 0 }
 func IsSymbolic() bool              { return false }
+
+// And/Or/Ite are branch-free connectives for oracles (no path fork in the engine).
+func And(a, b bool) bool { return a && b }
+func Or(a, b bool) bool  { return a || b }
+func Ite(c bool, a, b int64) int64 {
+	if c {
+		return a
+	}
+	return b
+}
+func IteF(c bool, a, b float64) float64 {
+	if c {
+		return a
+	}
+	return b
+}
